@@ -1,11 +1,159 @@
 import PyresampleModel.Model.Core
 
 /-
-  C15 — model (stub: not built yet).
+  C15 — `_multi_proc.Scheduler`: small-step semantics of `__iter__` run by several workers.
+
+  Every model step is exactly one observable event of the real code:
+  `acquire`, read `_ndata`, read `_start`, write `_ndata`, write `_start`, `release`,
+  `yield slice(s0, s1)`, `return`.  A schedule is an arbitrary list of worker ids; a worker that
+  is chosen while it waits for the lock (or has returned) does not move.
 -/
+
 namespace PyresampleModel.C15
 
+inductive Kind where
+  | guided | dynamic | static
+deriving Repr, DecidableEq
+
+structure Cfg where
+  kind   : Kind
+  chunk  : Nat      -- `self._chunk`
+  nprocs : Nat      -- `self._nprocs`
+deriving Repr
+
+/-- `Scheduler.__init__`: the value stored in `self._chunk`.  `chunkArg = 0` encodes a falsy
+`chunk` argument (`None` or `0`). -/
+def initChunk (kind : Kind) (ndata nprocs : Nat) (chunkArg : Int) : Nat :=
+  match kind with
+  | .static =>
+    let m : Int := (ndata / nprocs : Nat)
+    let m := if chunkArg ≠ 0 then max chunkArg m else m
+    (max m 1).toNat
+  | _ =>
+    let m : Int := (ndata / (10 * nprocs) : Nat)
+    let m := if chunkArg ≠ 0 then chunkArg else m
+    (max m 1).toNat
+
+/-- the chunk used by one pass of the `while True` body, given the `_ndata` value it read -/
+def chunkOf (c : Cfg) (nd : Nat) : Nat :=
+  match c.kind with
+  | .guided => max c.chunk (nd / c.nprocs)
+  | _ => c.chunk
+
+/-- program counter of one worker inside `__iter__` -/
+inductive Pc where
+  | idle                      -- about to `acquire`
+  | locked                    -- holds the lock, about to read `_ndata`
+  | readN (nd : Nat)          -- about to read `_start`
+  | readS (nd st : Nat)       -- about to write `_ndata` (or to release, if nd = 0)
+  | wroteN (s0 s1 : Nat)      -- about to write `_start := s1`
+  | relY (s0 s1 : Nat)        -- about to release, will yield `slice(s0, s1)`
+  | yielding (s0 s1 : Nat)    -- released, about to yield
+  | retg                      -- released, about to return
+  | done
+deriving Repr, DecidableEq
+
+inductive Ev where
+  | acq | rdN (v : Nat) | rdS (v : Nat) | wrN (v : Nat) | wrS (v : Nat) | rel
+  | yld (s0 s1 : Nat) | ret
+deriving Repr, DecidableEq
+
+structure St where
+  ndata   : Nat
+  start   : Nat
+  lock    : Option Nat
+  pcs     : List Pc
+  yielded : List (Nat × Nat × Nat)   -- (worker, s0, s1) in yield order
+  log     : List (Nat × Nat)         -- ghost: slices in the order they were decided
+deriving Repr
+
+def init (n workers : Nat) : St :=
+  { ndata := n, start := 0, lock := none, pcs := List.replicate workers .idle, yielded := [], log := [] }
+
+/-- one event of worker `w`; `none` = `w` cannot move (waits for the lock / has returned / no such worker) -/
+def step (c : Cfg) (s : St) (w : Nat) : Option (St × Ev) :=
+  match s.pcs[w]? with
+  | none => none
+  | some .idle =>
+    if s.lock = none then some ({ s with lock := some w, pcs := s.pcs.set w .locked }, .acq) else none
+  | some .locked => some ({ s with pcs := s.pcs.set w (.readN s.ndata) }, .rdN s.ndata)
+  | some (.readN nd) => some ({ s with pcs := s.pcs.set w (.readS nd s.start) }, .rdS s.start)
+  | some (.readS nd st) =>
+    if nd ≠ 0 then
+      if chunkOf c nd > nd then
+        some ({ s with ndata := 0, pcs := s.pcs.set w (.relY st (st + nd)),
+                       log := s.log ++ [(st, st + nd)] }, .wrN 0)
+      else
+        some ({ s with ndata := nd - chunkOf c nd, pcs := s.pcs.set w (.wroteN st (st + chunkOf c nd)),
+                       log := s.log ++ [(st, st + chunkOf c nd)] }, .wrN (nd - chunkOf c nd))
+    else some ({ s with lock := none, pcs := s.pcs.set w .retg }, .rel)
+  | some (.wroteN a b) => some ({ s with start := b, pcs := s.pcs.set w (.relY a b) }, .wrS b)
+  | some (.relY a b) => some ({ s with lock := none, pcs := s.pcs.set w (.yielding a b) }, .rel)
+  | some (.yielding a b) =>
+    some ({ s with yielded := s.yielded ++ [(w, a, b)], pcs := s.pcs.set w .idle }, .yld a b)
+  | some .retg => some ({ s with pcs := s.pcs.set w .done }, .ret)
+  | some .done => none
+
+/-- state after a schedule (disabled choices are skipped) -/
+def run (c : Cfg) (s : St) : List Nat → St
+  | [] => s
+  | w :: ws =>
+    match step c s w with
+    | none => run c s ws
+    | some (s', _) => run c s' ws
+
+/-- event trace of a schedule (`none` for a disabled choice) -/
+def trace (c : Cfg) (s : St) : List Nat → List (Option Ev)
+  | [] => []
+  | w :: ws =>
+    match step c s w with
+    | none => none :: trace c s ws
+    | some (s', e) => some e :: trace c s' ws
+
+/-! ### result assembly of `_parallel_query` / `_parallel_proj`: `res[s] = f(x[s])` per yielded slice -/
+
+/-- write `vals` into `res` at positions `[a, a + vals.length)` -/
+def writeAt {α} (res : List α) (a : Nat) (vals : List α) : List α :=
+  res.take a ++ vals ++ res.drop (a + vals.length)
+
+/-- every worker computes `f` on its slice of the input and stores it in the shared result -/
+def assemble {α β} (f : α → β) (x : List α) (slices : List (Nat × Nat)) (res : List β) : List β :=
+  slices.foldl (fun r (p : Nat × Nat) => writeAt r p.1 (((x.drop p.1).take (p.2 - p.1)).map f)) res
+
+/-! ### driver -/
+
+open Wire
+
+def kind? : String → Option Kind
+  | "guided" => some .guided
+  | "dynamic" => some .dynamic
+  | "static" => some .static
+  | _ => none
+
+def showEv : Option Ev → String
+  | none => "-"
+  | some .acq => "acq"
+  | some (.rdN v) => s!"rn{v}"
+  | some (.rdS v) => s!"rs{v}"
+  | some (.wrN v) => s!"wn{v}"
+  | some (.wrS v) => s!"ws{v}"
+  | some .rel => "rel"
+  | some (.yld a b) => s!"y{a}:{b}"
+  | some .ret => "ret"
+
 def handle : List String → Option String
+  | ["initchunk", kind, n, nprocs, chunkArg] => do
+    let k ← kind? kind; let n ← nat? n; let p ← nat? nprocs; let ca ← int? chunkArg
+    if p = 0 then some "err:zerodiv" else
+    some (toString (initChunk k n p ca))
+  | "sched" :: kind :: chunk :: nprocs :: n :: workers :: rest => do
+    -- sched <kind> <self._chunk> <nprocs> <n> <workers> <k> w₁ … w_k
+    let k ← kind? kind; let ch ← nat? chunk; let p ← nat? nprocs; let n ← nat? n; let wk ← nat? workers
+    let (ws, tl) ← takeList nat? rest
+    if tl ≠ [] then none else
+    if p = 0 then some "err:zerodiv" else
+    let c : Cfg := { kind := k, chunk := ch, nprocs := p }
+    some (" ".intercalate ((trace c (init n wk) ws).map showEv))
   | _ => none
 
 end PyresampleModel.C15
